@@ -7,5 +7,4 @@ NOT_APPLICABLE = {
     "C17": "order preservation and round trip of the key encoding are pure functions of value pairs (DESIGN.md §6)",
     "C06": PENDING, "C07": PENDING, "C09": PENDING,
     "C10": PENDING, "C12": PENDING, "C15": PENDING, "C16": PENDING,
-    "C18": PENDING,
 }
